@@ -7,8 +7,8 @@ whad.dot15d4.stack.mac are replaced from outside, and a recording layer is regis
 the MAC (the way whad.zigbee / whad.rf4ce register their NWK layer) to observe MCPS-DATA
 indications.
 
-stdin : {"addr": [...], "raw": [...], "ack": [...], "choose": [...], "table": bool}
-stdout: RESULT {"addr": [...], "raw": [...], "ack": [...], "choose": [...], "table": [...]}
+stdin : {"addr": [...], "raw": [...], "ack": [...], "hist": [...], "choose": [...], "table": bool}
+stdout: RESULT {"addr": [...], "raw": [...], "ack": [...], "hist": [...], "choose": [...], "table": [...]}
 
 addr case  : {"A": {pan, short, ext}, "B": {pan, short, ext, promisc, implicit},
               "req": {sam, dam, dpan|null, daddr|null, suppressed, payload(hex), seq0, wait}}
@@ -18,6 +18,13 @@ raw case   : {"B": {...}, "frames": [hex]}      (frames put on B's PHY as they a
    result  : {"ind": [...], "acks": n_queued}   | {"exc": cls}
 ack case   : {"seq0": n, "ops": [["O", seq] | ["S", wait, [["A", seq] | ["T"]], imm]]}
    result  : {"sends": [{"ret": bool, "frames": [hex]}], ["exc": cls]}
+hist case  : {"A": {...}, "B": {...}, "seq0": n, "ops": [op]}  one sender, one receiver whose PIB is
+             rewritten between frames.  op = ["F", req]                          data request of A
+                | ["U", path, attr, value]   path = "mlme_set" | "db" | "helper" (set_short_address /
+                                             set_extended_address); attr = PIB attribute name
+                | ["START", pan] | ["ASSOC_FAIL", pan, coord] | ["ASSOC_OK", pan, coord, short] | ["RESET"]
+   result  : {"steps": [{"frames": [hex], "ind": [...], "ret": .., "seq_after": n, "pib": {...}} per "F"],
+              "pib": {...} (receiver PIB at the end), "upd": [return values of the update ops]}
 choose case: [framever, dam, sam, dest_panid|null, src_panid|null, has_layer]
    result  : {"bit": n, "view": [hasattr dest_panid, hasattr src_panid, packet.dest_panid, packet.src_panid]}
              | {"exc": cls, "view": ...}
@@ -26,9 +33,10 @@ import sys, json, logging, struct
 logging.disable(logging.CRITICAL)
 from scapy.config import conf
 conf.dot15d4_protocol = "zigbee"
-from scapy.layers.dot15d4 import Dot15d4, Dot15d4Data
+from scapy.layers.dot15d4 import Dot15d4, Dot15d4Data, Dot15d4Cmd, Dot15d4CmdAssocResp
 from scapy.packet import Raw
 import whad.dot15d4.stack.mac as macmod
+import whad.dot15d4.stack.service as svcmod
 from whad.dot15d4.stack import Dot15d4Stack
 from whad.dot15d4.stack.mac import MACManager
 from whad.dot15d4.stack.mac.constants import MACAddressMode
@@ -75,6 +83,7 @@ class VirtualTime:
 VT = VirtualTime()
 macmod.time = VT.time
 macmod.sleep = VT.sleep
+svcmod.time = VT.time      # Dot15d4Service.wait_for_packet (association response wait)
 
 
 @alias('nwk')
@@ -242,6 +251,97 @@ def do_ack(c):
     return out
 
 
+def pib_of(mac):
+    db = mac.database
+    return {"pan": db.get("macPanId"), "short": db.get("macShortAddress"), "ext": db.get("macExtendedAddress"),
+            "promisc": bool(db.get("macPromiscuousMode")), "implicit": bool(db.get("macImplicitBroadcast"))}
+
+
+def do_hist(c):
+    pa, sa, ma = mk_node(c["A"])
+    pb, sb, mb = mk_node(c["B"])
+    pa.peer, pb.peer = pb, None
+    ma.database.set("macDataSequenceNumber", c.get("seq0", 0))
+    mgmt = mb.get_service("management")
+    ind = mb.get_layer('nwk').ind
+    out = {"steps": [], "upd": []}
+    try:
+        for o in c["ops"]:
+            VT.calls = 0
+            VT.sched = []
+            if o[0] == "F":
+                r = o[1]
+                n0, i0 = len(pa.frames), len(ind)
+                rec = {"pib": pib_of(mb)}
+                try:
+                    ret = ma.get_service("data").data(
+                        bytes.fromhex(r["payload"]),
+                        source_address_mode=MODES[r["sam"]],
+                        destination_pan_id=r["dpan"],
+                        destination_address=r["daddr"],
+                        destination_address_mode=MODES[r["dam"]],
+                        pan_id_suppressed=bool(r.get("suppressed", False)),
+                        wait_for_ack=False)
+                    rec["ret"] = ret if isinstance(ret, bool) or ret is None else type(ret).__name__
+                except Exception as e:  # noqa
+                    rec["exc"] = type(e).__name__
+                rec["frames"] = pa.frames[n0:]
+                rec["ind"] = ind[i0:]
+                rec["seq_after"] = ma.database.get("macDataSequenceNumber")
+                out["steps"].append(rec)
+            elif o[0] == "U":
+                _t, path, attr, value = o
+                if attr in ("macPromiscuousMode", "macImplicitBroadcast"):
+                    value = bool(value)
+                if path == "mlme_set":
+                    out["upd"].append(bool(mgmt.set(attr, value)))
+                elif path == "db":
+                    out["upd"].append(bool(mb.database.set(attr, value)))
+                elif path == "helper" and attr == "macShortAddress":
+                    mb.set_short_address(value)
+                    out["upd"].append(None)
+                elif path == "helper" and attr == "macExtendedAddress":
+                    mb.set_extended_address(value)
+                    out["upd"].append(None)
+                else:
+                    raise ValueError("no such update path")
+            elif o[0] == "START":
+                mgmt.start(o[1])
+                out["upd"].append(None)
+            elif o[0] == "RESET":
+                out["upd"].append(mgmt.reset())
+            elif o[0] in ("ASSOC_FAIL", "ASSOC_OK"):
+                pan, coord = o[1], o[2]
+                ok = o[0] == "ASSOC_OK"
+                state = {"n": 0}
+
+                def on_tx(ok=ok, pan=pan, coord=coord, short=(o[3] if ok else None), state=state):
+                    # the coordinator: acknowledges what the device sends and answers the data
+                    # request that follows the association request with an association response
+                    if not ok:
+                        return
+                    fr = bytes.fromhex(pb.frames[-1])
+                    state["n"] += 1
+                    if fr[0] & 0x20:
+                        pb.receive(ack_bytes(fr[2]))
+                    if state["n"] == 2:
+                        resp = Dot15d4(fcf_frametype=3, fcf_srcaddrmode=2, fcf_destaddrmode=3) / Dot15d4Cmd(
+                            cmd_id=2, dest_panid=pan, dest_addr=mb.database.get("macExtendedAddress"),
+                            src_panid=pan, src_addr=coord) / Dot15d4CmdAssocResp(short_address=short, association_status=0)
+                        pb.receive(bytes(resp))
+                pb.on_tx = on_tx
+                try:
+                    out["upd"].append(bool(mgmt.associate(coordinator_pan_id=pan, coordinator_address=coord)))
+                finally:
+                    pb.on_tx = None
+            else:
+                raise ValueError("unknown op")
+    except Exception as e:  # noqa
+        out["exc"] = type(e).__name__
+    out["pib"] = pib_of(mb)
+    return out
+
+
 def do_choose(c, mac):
     framever, dam, sam, dpan, span, has_layer = c
     try:
@@ -270,7 +370,8 @@ def main():
     req = json.load(sys.stdin)
     res = {"addr": [do_addr(c) for c in req.get("addr", [])],
            "raw": [do_raw(c) for c in req.get("raw", [])],
-           "ack": [do_ack(c) for c in req.get("ack", [])]}
+           "ack": [do_ack(c) for c in req.get("ack", [])],
+           "hist": [do_hist(c) for c in req.get("hist", [])]}
     if req.get("choose"):
         _p, _s, mac = mk_node({"pan": 1, "short": 2, "ext": 3})
         res["choose"] = [do_choose(c, mac) for c in req["choose"]]
